@@ -148,7 +148,17 @@ func planCtx(c *kit.Case) plan {
 	p.API = []string{apiMR, apiChan, apiVoid, apiForEach}[r.Pick(5, 2, 2, 2)]
 	sizes(r, &p)
 	p.Red = redStyleFor(r, p.API)
-	p.Ctx = []string{ctxPre, ctxAt, ctxAtAsync, ctxDeadline}[r.Pick(1, 3, 6, 2)]
+	p.Ctx = []string{ctxPre, ctxAt, ctxAtAsync, ctxDeadline}[r.Pick(2, 3, 6, 2)]
+	if p.Ctx == ctxPre {
+		// the context is over before the call is made: cancelled, or a deadline that has already passed;
+		// a generator that has something to send must still be allowed to finish
+		if r.Bool() {
+			p.Ctx = ctxPreDL
+		}
+		if p.Items == 0 && r.Chance(0.7) {
+			p.Items = 1 + r.Intn(4)
+		}
+	}
 	if p.Ctx == ctxAt || p.Ctx == ctxAtAsync {
 		if p.hasReducer() && r.Chance(0.6) {
 			// aim at the reducer's output write
